@@ -109,6 +109,21 @@ func c34HostileLen(t *rapid.T, label string, actual, elem int64) (int64, string)
 	}
 }
 
+// c34BatchLenEdges are batchLength wire values around the int32 limits: 12 (the frame header
+// length) + v overflows int32 for v in MaxInt32-11..MaxInt32; MinInt32 / -1 as uint32; and
+// the neighbours just outside the overflow window.
+var c34BatchLenEdges = []int64{0x7FFFFFF2, 0x7FFFFFF3, 0x7FFFFFF4, 0x7FFFFFF5, 0x7FFFFFF8, 0x7FFFFFFE, 0x7FFFFFFF, 0x80000000, 0x80000001, 0xFFFFFFF3, 0xFFFFFFF4, 0xFFFFFFFE, 0xFFFFFFFF}
+
+// c34WithBatchLen returns a copy of a segment whose batch frame at body offset 0 carries the
+// given batchLength (fuzz seeds).
+func c34WithBatchLen(seg []byte, v uint32) []byte {
+	out := append([]byte(nil), seg...)
+	if len(out) >= 32+12 {
+		binary.BigEndian.PutUint32(out[32+8:], v)
+	}
+	return out
+}
+
 type c34Desc struct {
 	Class    string // generator class
 	Field    string // mutated field ("" = none)
@@ -250,7 +265,10 @@ func c34Batches(t *rapid.T, hostile bool, d *c34Desc) [][]byte {
 		enc := b.Encode()
 		if bi == hb && mut == "batchlen" {
 			actual := int64(len(enc) - 12)
-			v := rapid.SampledFrom([]int64{0, 1, 48, actual - 1, actual + 1, actual + 61, 1 << 31, 0xFFFFFFFF, 1 << 20}).Draw(t, "batchlen")
+			v := rapid.OneOf(
+				rapid.SampledFrom([]int64{0, 1, 48, actual - 1, actual + 1, actual + 61, 1 << 20}),
+				rapid.SampledFrom(c34BatchLenEdges),
+			).Draw(t, "batchlen")
 			binary.BigEndian.PutUint32(enc[8:], uint32(v))
 			d.Field, d.ValClass, d.Value = "batchlen", strconv.FormatInt(v-actual, 10), v
 		}
